@@ -328,6 +328,16 @@ func preInstantiate(D *Decls, asserts []*Term, focus []*Term, withPairs bool, hi
 		}
 	}
 	p.ints = append(append([]*Term{}, p.hints...), p.ints...)
+	// offset 0 (first byte / first element) is always worth trying
+	hasZero := false
+	for _, c := range p.ints {
+		if v, ok := c.IntVal(); ok && v == 0 {
+			hasZero = true
+		}
+	}
+	if !hasZero {
+		p.ints = append(p.ints[:min(len(p.ints), 5)], append([]*Term{IntLit(0)}, p.ints[min(len(p.ints), 5):]...)...)
+	}
 	// content equality is identity of string ids: streq(a,b) = (sid a = sid b).
 	// For every ground atom streq(a, b) the link to the bytes is made explicit:
 	//   sid a = sid b  ==> len(a) = len(b)  and equal bytes at the candidates
@@ -471,6 +481,70 @@ func (p *preinst) engineInstances(all []*Term) {
 		})
 	}
 	_ = sids // sid(a) = sid(b) is streq(a,b) by definition; byte-level links are added per streq atom
+	// sidsetf / joinspf applications (sets and joins over []string rows)
+	var ssets, joins []*Term
+	ssSeen := map[string]bool{}
+	hasJoin := false
+	for _, t := range all {
+		t.Walk(func(x *Term) {
+			if x.IsSym && (x.Op == "sidsetf" || x.Op == "joinspf") && isGroundTerm(x) {
+				if k := x.String(); !ssSeen[k] {
+					ssSeen[k] = true
+					if x.Op == "sidsetf" && len(ssets) < 12 {
+						ssets = append(ssets, x)
+					} else if x.Op == "joinspf" && len(joins) < 12 {
+						joins = append(joins, x)
+						hasJoin = true
+					}
+				}
+			}
+		})
+	}
+	sidwit := func(s *Term, k *Term) *Term { return bi("sidwit", SInt, s.Args[0], s.Args[1], s.Args[2], k) }
+	for _, s1 := range ssets {
+		r, lo, hi := s1.Args[0], s1.Args[1], s1.Args[2]
+		for _, c := range p.ints {
+			p.emit(nil, Imp(Le(hi, lo), Not(Select(s1, c))))
+			p.emit(nil, Imp(And(Le(lo, c), Lt(c, hi)), Select(s1, Sid(Select(r, c)))))
+			w := sidwit(s1, c)
+			p.emit(nil, Imp(Select(s1, c), And(Le(lo, w), Lt(w, hi), Eq(Sid(Select(r, w)), c))))
+		}
+		// a range of literal length: unfolded
+		if d, ok := Sub(hi, lo).IntVal(); ok && d >= 0 && d <= 4 {
+			for _, c := range p.ints {
+				var ds []*Term
+				for j := int64(0); j < d; j++ {
+					ds = append(ds, Eq(Sid(Select(r, Add(lo, IntLit(j)))), c))
+				}
+				p.emit(nil, Eq(Select(s1, c), Or(ds...)))
+			}
+		}
+		for _, s2 := range ssets {
+			if s1 == s2 || s1.Args[0].String() != s2.Args[0].String() || s1.Args[1].String() != s2.Args[1].String() {
+				continue
+			}
+			h2 := s2.Args[2]
+			for _, c := range p.ints {
+				p.emit(nil, Imp(And(Eq(h2, Add(hi, IntLit(1))), Le(lo, hi)),
+					Eq(Select(s2, c), Or(Select(s1, c), Eq(Sid(Select(r, hi)), c)))))
+			}
+		}
+	}
+	catid := func(a, b *Term) *Term { return bi("catid", SInt, a, b) }
+	for _, j1 := range joins {
+		r, lo, hi, sep := j1.Args[0], j1.Args[1], j1.Args[2], j1.Args[3]
+		p.emit(nil, Imp(Eq(hi, Add(lo, IntLit(1))), And(Eq(Sid(j1), Sid(Select(r, lo))), Eq(SLen(j1), SLen(Select(r, lo))))))
+		p.emit(nil, Ge(SLen(j1), IntLit(0)))
+		for _, j2 := range joins {
+			if j1 == j2 || j1.Args[0].String() != j2.Args[0].String() || j1.Args[1].String() != j2.Args[1].String() || j1.Args[3].String() != j2.Args[3].String() {
+				continue
+			}
+			h2 := j2.Args[2]
+			p.emit(nil, Imp(And(Eq(h2, Add(hi, IntLit(1))), Gt(hi, lo)),
+				And(Eq(Sid(j2), catid(Sid(j1), catid(Sid(sep), Sid(Select(r, hi))))),
+					Eq(SLen(j2), Add(Add(SLen(j1), SLen(sep)), SLen(Select(r, hi)))))))
+		}
+	}
 	for _, t := range all {
 		t.Walk(func(x *Term) {
 			if !x.IsSym || len(x.Args) == 0 || !isGroundTerm(x) {
@@ -484,6 +558,9 @@ func (p *preinst) engineInstances(all []*Term) {
 			case "sconcat":
 				seen[k] = true
 				a, b := x.Args[0], x.Args[1]
+				if hasJoin {
+					p.emit(nil, Eq(Sid(x), catid(Sid(a), Sid(b))))
+				}
 				p.emit(nil, And(Eq(SOff(x), IntLit(0)), Eq(SLen(x), Add(SLen(a), SLen(b)))))
 				for _, c := range p.ints {
 					p.emit(nil, Imp(And(Le(IntLit(0), c), Lt(c, SLen(a))), Eq(Select(SArr(x), c), SAt(a, c))))
